@@ -60,6 +60,14 @@ TRUSTED = [
     "real_angle_add prove this representation turns the model formulas into the code's cos, sin, exp(i theta) and "
     "Ang.add into + on the reals; the laws of the constants are PROVED for C (kC_laws) and Q(zeta8) (cyc8_laws)",
     "harness/tables.py:gate_table (reads name, num_qubits, is_hermitian and the factory signature off the live objects)",
+    # --- T10: translation tie of the matrices themselves
+    "T10: the 27 matrices of Model/Gates.lean are no longer trusted as a transcription: harness/translate_t10.py regenerates "
+    "tr_<factory> from the ast of circuits/_matrices.py on every run and Props/C02_TranslatedMatrices.lean proves each equal to "
+    "the model for all rings / all angle points (u3: the PRODUCT the code writes, simplify rendered as the identity, equals the "
+    "closed form under i^2=-1 and the circle law - simplify's soundness is not assumed for the tie); trusted instead: the "
+    "translator's mapping of sympy/numpy syntax (cos, sin, exp, sqrt, 1j, pi, 2**(-0.5), Matrix, *, /) to Scal / Ang "
+    "(harness/translate_t10.py docstring), compared with the Python factories at exact Q(zeta8) points on every run",
+    # --- T10 end
     "the model is a pure function of (gate, parameters): a session (history) is answered read by read by the same "
     "model function - that the implementation's answer may not depend on the history is exactly what is compared",
 ]
